@@ -63,6 +63,14 @@ class _Rename(ast.NodeTransformer):
             return ast.copy_location(copy.deepcopy(m), node)
         return node
 
+    def visit_Call(self, node):
+        node = self.generic_visit(node)
+        # beta-reduce a thunk parameter:  (lambda: e)()  ==>  e
+        f = node.func
+        if isinstance(f, ast.Lambda) and not node.args and not node.keywords and not (f.args.args or f.args.vararg or f.args.kwarg or f.args.kwonlyargs or f.args.posonlyargs):
+            return f.body
+        return node
+
     def visit_Lambda(self, node):
         shadow = {a.arg for a in node.args.args + node.args.kwonlyargs}
         inner = _Rename({k: v for k, v in self.mapping.items() if k not in shadow})
@@ -185,6 +193,33 @@ class Inliner:
         if isinstance(s, ast.Try):
             for h in s.handlers:
                 h.body = self.block(h.body, stack, depth)
+        # a multi-statement helper called in an `if` test, or as the only argument of a call statement, is hoisted into a
+        # temporary first:  if h(x): ...  ==>  _t = h(x); if _t: ...     acc.extend(h(x))  ==>  _t = h(x); acc.extend(_t)
+        if depth > 0:
+            hoist = None
+            if isinstance(s, ast.If):
+                t = s.test
+                inner = t.operand if isinstance(t, ast.UnaryOp) and isinstance(t.op, ast.Not) else t
+                if isinstance(inner, ast.Call) and self._multi(inner, stack):
+                    hoist = ('test', inner)
+            elif isinstance(s, ast.Expr) and isinstance(s.value, ast.Call) and len(s.value.args) == 1 and not s.value.keywords:
+                a0 = s.value.args[0]
+                if isinstance(a0, ast.Call) and self._multi(a0, stack) and not self._multi(s.value, stack):
+                    hoist = ('arg', a0)
+            if hoist is not None:
+                self.counter += 1
+                tmp = f'_inl{self.counter}_tmp'
+                asg = ast.copy_location(ast.Assign(targets=[ast.Name(id=tmp, ctx=ast.Store())], value=hoist[1], lineno=s.lineno), s)
+                ref = ast.copy_location(ast.Name(id=tmp, ctx=ast.Load()), s)
+                if hoist[0] == 'test':
+                    if isinstance(s.test, ast.UnaryOp):
+                        s.test.operand = ref
+                    else:
+                        s.test = ref
+                else:
+                    s.value.args[0] = ref
+                ast.fix_missing_locations(asg)
+                return self.stmt(asg, stack, depth) + [s]
         call, target, is_ret = None, None, False
         if isinstance(s, ast.Expr) and isinstance(s.value, ast.Call):
             call = s.value
@@ -213,13 +248,24 @@ class Inliner:
                         it.context_expr = self.expr(it.context_expr, stack, depth)
         return [s]
 
+    def _multi(self, call, stack):
+        """call of an inlinable helper whose body is more than a single `return <expr>`"""
+        g, self_expr = self._callee(call, stack)
+        if g is None:
+            return False
+        b = _body(g)
+        if len(b) == 1 and isinstance(b[0], ast.Return):
+            return False
+        return _bind(g, call, self_expr) is not None
+
     def _splice(self, s, g, binding, target, is_ret, stack, depth):
         self.counter += 1
         self.inlined.append(g.qname)
         pre = []
         mapping = {}
         for p, a in binding.items():
-            if isinstance(a, (ast.Name, ast.Constant)) or (isinstance(a, ast.Attribute) and self._pure(a)):
+            zero_lambda = isinstance(a, ast.Lambda) and not (a.args.args or a.args.vararg or a.args.kwarg or a.args.kwonlyargs or a.args.posonlyargs)
+            if isinstance(a, (ast.Name, ast.Constant)) or (isinstance(a, ast.Attribute) and self._pure(a)) or zero_lambda:
                 # reassigned parameters need a real local
                 reassigned = any(isinstance(n, ast.Name) and n.id == p and isinstance(n.ctx, ast.Store) for n in ast.walk(g.node))
                 if not reassigned:
@@ -334,6 +380,27 @@ def dealiased(prog, func: Func, keys=('todo', 'doing', 'do')) -> Func:
             ):
                 vals[n.targets[0].id] = v
     mapping = {k: v for k, v in vals.items() if counts.get(k) == 1 and counts.get(v.func.value.id, 0) <= 1}
+    # locals bound exactly once to a pure attribute chain (`priority = self.priority`, `Priority = pkg.mod.Class`,
+    # `idx = DBI().indices` is NOT one) when that chain is never stored to in this function
+    stored = set()
+    for n in func.own_nodes():
+        if isinstance(n, (ast.Assign, ast.AugAssign, ast.AnnAssign)):
+            for t in n.targets if isinstance(n, ast.Assign) else [n.target]:
+                if isinstance(t, ast.Attribute):
+                    stored.add(ast.unparse(t))
+    params = set(func.params())
+    for n in func.own_nodes():
+        if isinstance(n, ast.Assign) and len(n.targets) == 1 and isinstance(n.targets[0], ast.Name):
+            name, v = n.targets[0].id, n.value
+            if counts.get(name) != 1 or name in params or name in mapping:
+                continue
+            chain = v
+            while isinstance(chain, ast.Attribute):
+                chain = chain.value
+            if isinstance(v, ast.Attribute) and isinstance(chain, ast.Name) and ast.unparse(v) not in stored and counts.get(chain.id, 0) == 0:
+                # the assignment must dominate every use: require it at the top level of the function body
+                if any(n is s for s in func.node.body):
+                    mapping[name] = v
     if not mapping:
         _CACHE[key] = func
         return func
